@@ -298,13 +298,16 @@ CHECKS = {
              'are those of a plain dictionary driven with lower-cased keys (induction over the history); all item-based '
              'construction routes build the dictionary of the lower-cased items; name capitalisation is case-independent and '
              'idempotent on ASCII names; typed conversion parses exactly the relationship fields (equal to parse_depends of '
-             'the raw value), turns Installed-Size into an integer and leaves other values unchanged. The model is co-executed '
+             'the raw value), turns Installed-Size into an integer and leaves other values unchanged; rendering a paragraph of '
+             'uniquely named fields ([a-z][a-z0-9-]* keys, single-line trimmed values) and reading the rendering back gives '
+             'the same mapping (corollary of the C06 grammar theorem); a maintainer value "Name <address>" in the modelled '
+             'grammar splits into exactly that name and address and prints back unchanged. The model is co-executed '
              'with debcon.Debian822 on random histories of length 0-40 after all five construction routes, all op sequences '
              'of length <=4/5 over two casings, every known control field name in four casings, typed paragraphs, rendered '
              'paragraphs read back and maintainer values.',
-        note=TRUST + 'Not proved: rendering read-back and the maintainer split (they go through the modelled email '
-             'fragment / a guarded model of email.utils.parseaddr) are checked by co-execution and by the executable statement only; '
-             'str.lower / str.capitalize on non-ASCII names are outside the model.',
+        note=TRUST + 'Rendering read-back and the maintainer split go through the modelled email fragment and a guarded '
+             'model of email.utils.parseaddr (environment models, co-executed); multi-line values in the read-back and '
+             'str.lower / str.capitalize on non-ASCII names are outside the theorems.',
         technique='Rocq proof (simulation by induction over operation histories) + differential co-execution against the Python code',
     ),
     'C20': dict(
